@@ -81,6 +81,7 @@ pat(r"state->c\.(" + NAME + r") = (.*);", lambda m: [Ev("SETOUT", m.group(1), m.
 # --- hooks -------------------------------------------------------------------------------------
 pat(r"(" + NAME + r")_(" + NAME + r")_hook\(state, (.*)\);", lambda m: [Ev("HOOKCALL", "global", m.group(2), m.group(3))])
 pat(r"\(state->(" + NAME + r")_hook\)\(state, (.*)\);", lambda m: [Ev("HOOKCALL", "perstate", m.group(1), m.group(2))])
+pat(r"\(void\)\s*inval;\s*(?://.*)?", lambda m: [Ev("USE_INVAL")])
 # --- function frames ---------------------------------------------------------------------------
 pat(r"(?:" + H + r"|\w+)_result_t (?:" + H + r"|\w+)_(start|feed|end)\((.*)\)\s*\{", lambda m: [Ev("FUNCDEF", m.group(1), m.group(2))])
 pat(r"(?:" + H + r"|\w+)_result_t (?:" + H + r"|\w+)_(start|feed|end)\((.*)\);", lambda m: [Ev("FUNCDECL", m.group(1), m.group(2))])
